@@ -649,9 +649,10 @@ class _SatClient:
             res = cl.m.solve()
             return {"sat": bool(res)}   # which model is exposed is the solver's choice, not an answer of the encoding
         c07_sat._apply(cl, o)
-        # the meaning (model set on the user's variables) and the text the manager would write (DIMACS, numbered by the
-        # manager's own table, hence independent of the node numbers of the process-wide store)
-        return {"models": sorted(cl.projected_models()), "cnf": digest(cl.m.tocnf())}
+        # the answer of an encoding is its meaning (the model set on the user's variables).  The text the manager would
+        # write (DIMACS) is recorded next to it as an observation only: clause order and the numbering of auxiliary variables
+        # may legitimately follow the node numbers of the process-wide store (neutral refactoring NE-3 does exactly that)
+        return {"models": sorted(cl.projected_models()), "_cnf": digest(cl.m.tocnf())}
 
 
 class _BulkClient:
@@ -760,6 +761,8 @@ def _exec(arg):
                         if len(fs.fired) > nf:
                             rec["fault"] = fs.fired[-1]["kind"]
                         fs.plan = []
+                if isinstance(res, dict) and "_cnf" in res:
+                    rec["cnf"] = res.pop("_cnf")
                 rec.update(out="ok", digest=digest(res), short=_short(res), skipped=(res == "skipped"))
             except Exception as e:
                 rec.update(out="raised", digest="exc:" + type(e).__name__, short=repr(e)[:160])
@@ -823,6 +826,8 @@ def run_case(case):
         if c in diverged:
             continue
         compared[c] += 1
+        if rec.get("cnf") != a.get("cnf") and rec["digest"] == a["digest"]:
+            probe("cnf_text_differs_from_the_alone_run_with_the_same_meaning")
         if rec["digest"] != a["digest"]:
             aborted_before = any(r["out"] == "aborted" for r in inter[:i] if r is not None)
             if aborted_before and rec["out"] == "raised" and a["out"] == "ok":
